@@ -296,4 +296,4 @@ EXHAUSTIVE_MEANS = "part B only: every script over the 8 step kinds up to length
 
 
 def budget(tier):
-    return {"examples": 500, "shards": 1} if tier == "quick" else {"examples": 2000, "shards": 16}
+    return {"examples": 1000, "shards": 1} if tier == "quick" else {"examples": 2000, "shards": 16}
